@@ -594,12 +594,20 @@ func (fr *Frame) loopHead(b *ssa.BasicBlock, li *loopInfo) Heap {
 			p := b.Preds[pi]
 			env := fr.loopEnv(li, fr.heapOut[p.Index], func(phi *ssa.Phi) Val { return fr.valOf(phi.Edges[pi]) })
 			fr.bindLoopLets(li, env)
+			var proved []string
 			for _, inv := range fr.activeInvs(li) {
 				for _, part := range splitConj(inv.Expr) {
 					g := env.evalBool(part)
 					u.curPos = token.NoPos
+					u.curReveal = inv.Reveal
 					o := u.oblig("inv-init", fmt.Sprintf("loop %d invariant holds on entry: %s", li.ordinal, exprString(part)), implies(edges[k], g), inv.Props)
+					u.curReveal = nil
 					o.Pos = inv.Where
+					if u.sequential() {
+						// the conjuncts are proved in order: each may use the earlier ones (all are obligations)
+						o.Extra = append(o.Extra, proved...)
+						proved = append(proved, "(assert "+implies(edges[k], g)+")")
+					}
 				}
 			}
 		}
@@ -794,12 +802,19 @@ func (fr *Frame) loopLatch(from, head *ssa.BasicBlock, li *loopInfo) {
 	}
 	env := fr.loopEnv(li, h, func(phi *ssa.Phi) Val { return fr.valOf(phi.Edges[pi]) })
 	fr.bindLoopLets(li, env)
+	var proved []string
 	for _, inv := range fr.activeInvs(li) {
 		for _, part := range splitConj(inv.Expr) {
 			g := env.evalBool(part)
 			u.curPos = token.NoPos
+			u.curReveal = inv.Reveal
 			o := u.oblig("inv-preserve", fmt.Sprintf("loop %d invariant preserved: %s", li.ordinal, exprString(part)), implies(edge, g), inv.Props)
+			u.curReveal = nil
 			o.Pos = inv.Where
+			if u.sequential() {
+				o.Extra = append(o.Extra, proved...)
+				proved = append(proved, "(assert "+implies(edge, g)+")")
+			}
 		}
 	}
 	if li.spec.Decreases != nil {
